@@ -29,7 +29,7 @@ func main() {
 			var sb strings.Builder
 			f.WriteTo(&sb)
 			for _, l := range strings.Split(sb.String(), "\n") {
-				if !strings.HasPrefix(strings.TrimSpace(l), ";") {
+				if os.Getenv("SSADUMP_ALL") != "" || !strings.HasPrefix(strings.TrimSpace(l), ";") {
 					fmt.Println(l)
 				}
 			}
